@@ -15,13 +15,16 @@ import (
 	"verifkit/rep"
 )
 
-// Index ranges: wire cases from 0, queue cases from 1_000_000, helper-law
+// Index ranges: wire cases from 0, queue cases from 1_000_000, remote-layer
+// cases (queue 1_500_000, endpoint 1_700_000), helper-law
 // batches from 2_000_000, the literal census is case 3_000_000.
 const (
-	wireBase   = 0
-	queueBase  = 1_000_000
-	lawBase    = 2_000_000
-	censusCase = 3_000_000
+	wireBase    = 0
+	queueBase   = 1_000_000
+	remoteQBase = 1_500_000
+	remoteWBase = 1_700_000
+	lawBase     = 2_000_000
+	censusCase  = 3_000_000
 )
 
 func TestVerif(t *testing.T) {
@@ -38,6 +41,18 @@ func TestVerif(t *testing.T) {
 	}
 	for i := 0; i < nQueue; i++ {
 		r.Run(queueBase+i, fmt.Sprintf("queue-%d", i), func(c *rep.Case) { runQueueCase(t, r, c, queueBase+i) })
+	}
+	// Every remote transaction is a TCP connection whose closing side stays in
+	// TIME_WAIT for a minute; 70 000 of them in 2.5 minutes exhausted the
+	// ephemeral ports of the machine (bind :0 failed for 3 000 cases), hence the
+	// moderate thorough size of this layer.
+	nRemoteQ := r.N(250, 8000)
+	nRemoteW := r.N(60, 2000) // x 6 transactions
+	for i := 0; i < nRemoteQ; i++ {
+		r.Run(remoteQBase+i, fmt.Sprintf("remote-queue-%d", i), func(c *rep.Case) { runRemoteQueueCase(t, r, c, remoteQBase+i) })
+	}
+	for i := 0; i < nRemoteW; i++ {
+		r.Run(remoteWBase+i, fmt.Sprintf("remote-wire-%d", i), func(c *rep.Case) { runRemoteWireCase(t, r, c, remoteWBase+i) })
 	}
 	for i := 0; i < nLaw; i++ {
 		r.Run(lawBase+i, fmt.Sprintf("law-%d", i), func(c *rep.Case) { runLawCase(r, c, lawBase+i) })
